@@ -120,6 +120,40 @@ Proof.
       try done. exfalso. apply Hd. congruence.
 Qed.
 
+(* ... hence ANY NUMBER of announces of pairwise different peers may have their updates applied in any order: a backlog of
+   pending post-response runs, released in whatever order the scheduler picks, leaves every swarm the same *)
+Definition obs_eq (sp sp' : spec) : Prop := ∀ ih v6, swarm_of sp ih v6 = swarm_of sp' ih v6.
+Definition apply_all (clock : Z) (l : list ann) (sp : spec) : spec :=
+  fold_left (λ s a, swarm_interaction spec_if a clock s) l sp.
+Definition akey (a : ann) : list Z * bool * list Z := (a_ih a, a_v6 a, a_key a).
+
+Lemma si_congr a clock sp sp' : obs_eq sp sp' →
+  obs_eq (swarm_interaction spec_if a clock sp) (swarm_interaction spec_if a clock sp').
+Proof.
+  intros Ho ih v6. unfold swarm_of, sm_get. rewrite !announce_lookup.
+  destruct (decide ((ih, v6) = (a_ih a, a_v6 a))) as [_|_].
+  - change (default empty_swarm ?o) with (o_sw o). rewrite !o_sw_announce. f_equal. apply (Ho (a_ih a) (a_v6 a)).
+  - apply Ho.
+Qed.
+Lemma apply_all_congr clock l : ∀ sp sp', obs_eq sp sp' → obs_eq (apply_all clock l sp) (apply_all clock l sp').
+Proof. induction l as [|a l IH]; intros sp sp' Ho; [done|]. cbn. apply IH. by apply si_congr. Qed.
+
+Theorem updates_order_irrelevant clock l l' :
+  Permutation l l' → NoDup (map akey l) →
+  ∀ sp sp', obs_eq sp sp' → obs_eq (apply_all clock l sp) (apply_all clock l' sp').
+Proof.
+  induction 1 as [|x l l' Hp IH|x y l|l1 l2 l3 Hp1 IH1 Hp2 IH2]; intros Hnd sp sp' Ho.
+  - done.
+  - cbn. apply IH; [by apply NoDup_cons_1_2 in Hnd|by apply si_congr].
+  - cbn. apply apply_all_congr. cbn [map] in Hnd.
+    assert (Hne : akey x ≠ akey y).
+    { apply NoDup_cons in Hnd as [Hin _]. intros E. apply Hin. rewrite E. by left. }
+    intros ih v6. rewrite (announce_updates_commute x y clock sp ih v6 Hne).
+    apply (si_congr y clock _ _ (si_congr x clock sp sp' Ho)).
+  - intros ih v6. rewrite (IH1 Hnd sp sp (λ _ _, eq_refl)).
+    apply IH2; [|done]. rewrite <- (Permutation_map akey Hp1). exact Hnd.
+Qed.
+
 (* announcing with nothing left lists the peer as a seeder (lifetime restarted) *)
 Theorem seeder_listed a clock sp : plain_event (a_event a) → a_left a = 0 →
   seeders (swarm_of (swarm_interaction spec_if a clock sp) (a_ih a) (a_v6 a)) !! a_key a = Some clock.
